@@ -227,3 +227,13 @@ pub fn boundary_texts(tier: &str) -> Vec<String> {
 
 /// token counts around powers of two / ten, for pointers with many tokens
 pub const MANY: [usize; 14] = [9, 10, 11, 15, 16, 17, 63, 64, 65, 100, 255, 256, 257, 1000];
+
+
+/// every length up to a little over 2048 (a threshold hidden in a computed constant such as `96 * size_of::<usize>()`
+/// falls inside), as a plain filler text
+pub fn sweep_lengths(tier: &str) -> std::ops::RangeInclusive<usize> {
+    if tier == "thorough" { 0..=4200 } else { 0..=2100 }
+}
+
+/// sizes around u16::MAX (bytes of a token / a pointer, numbers of tokens / elements)
+pub const SCALE_64K: [usize; 4] = [65_535, 65_536, 65_537, 70_001];
